@@ -99,8 +99,10 @@ class time_limit:
 
     def __init__(self, seconds):
         self.seconds = seconds
+        self.fired = False     # stays True even if the exception was swallowed by the code under test
 
     def _fire(self, signum, frame):
+        self.fired = True
         raise GwfTimeout("no result within %ds" % self.seconds)
 
     def __enter__(self):
